@@ -56,27 +56,27 @@ func runC05(c *Ctx) {
 	reach := g.Reach(roots, ReachOpts{})
 
 	reviewed := map[string]string{
-		"core.Transfer":                               "value transfer: SubBalance(sender, amount) then AddBalance(recipient, same amount)",
-		"(*core.StateTransition).refundGas":           "refund of unused gas at the purchase price",
-		"(*core.StateTransition).TransitionDb":        "fee = gasUsed x gasPrice to the coinbase",
-		"consensus/aquahash.accumulateRewards":        "the block reward schedule (the only issuance)",
-		"core/vm.opSuicide":                           "moves the self-destructing contract's whole balance, then Suicide zeroes it",
-		"consensus/misc.ApplyHardFork4":               "one-time zeroing of the listed genesis allocation",
-		"(*core.Genesis).ToBlock":                     "genesis allocation",
-		"(*core/state.StateDB).AddBalance":            "state internals (primitive wrapper)",
-		"(*core/state.StateDB).SubBalance":            "state internals",
-		"(*core/state.StateDB).SetBalance":            "state internals (primitive wrapper)",
-		"(*core/state.stateObject).AddBalance":        "state internals: new(big.Int).Add(balance, amount)",
-		"(*core/state.stateObject).SubBalance":        "state internals: new(big.Int).Sub(balance, amount)",
-		"(*core/state.stateObject).SetBalance":        "state internals: journalled setter",
-		"(*core/state.stateObject).setBalance":        "state internals: raw setter",
-		"(*core/state.StateDB).CreateAccount":         "carries the previous balance of a re-created account over",
-		"(*core/state.StateDB).Suicide":               "zeroes the balance of the self-destructed account",
-		"core/state.newObject":                        "replaces a nil balance by zero",
-		"(core/state.balanceChange).undo":             "journal undo",
-		"(core/state.suicideChange).undo":             "journal undo",
-		"(*core/state.stateObject).deepCopy":          "copy",
-		"consensus/clique.accumulateRewards":          "clique has no block reward: function body credits nothing (checked)",
+		"core.Transfer":                        "value transfer: SubBalance(sender, amount) then AddBalance(recipient, same amount)",
+		"(*core.StateTransition).refundGas":    "refund of unused gas at the purchase price",
+		"(*core.StateTransition).TransitionDb": "fee = gasUsed x gasPrice to the coinbase",
+		"consensus/aquahash.accumulateRewards": "the block reward schedule (the only issuance)",
+		"core/vm.opSuicide":                    "moves the self-destructing contract's whole balance, then Suicide zeroes it",
+		"consensus/misc.ApplyHardFork4":        "one-time zeroing of the listed genesis allocation",
+		"(*core.Genesis).ToBlock":              "genesis allocation",
+		"(*core/state.StateDB).AddBalance":     "state internals (primitive wrapper)",
+		"(*core/state.StateDB).SubBalance":     "state internals",
+		"(*core/state.StateDB).SetBalance":     "state internals (primitive wrapper)",
+		"(*core/state.stateObject).AddBalance": "state internals: new(big.Int).Add(balance, amount)",
+		"(*core/state.stateObject).SubBalance": "state internals: new(big.Int).Sub(balance, amount)",
+		"(*core/state.stateObject).SetBalance": "state internals: journalled setter",
+		"(*core/state.stateObject).setBalance": "state internals: raw setter",
+		"(*core/state.StateDB).CreateAccount":  "carries the previous balance of a re-created account over",
+		"(*core/state.StateDB).Suicide":        "zeroes the balance of the self-destructed account",
+		"core/state.newObject":                 "replaces a nil balance by zero",
+		"(core/state.balanceChange).undo":      "journal undo",
+		"(core/state.suicideChange).undo":      "journal undo",
+		"(*core/state.stateObject).deepCopy":   "copy",
+		"consensus/clique.accumulateRewards":   "clique has no block reward: function body credits nothing (checked)",
 	}
 	c.Rule("C05-R1", "closed set of balance-credit sites reachable from block processing, mining, chain generation and genesis", func() {
 		var found []string
@@ -364,12 +364,16 @@ func c05SharedBigRule(c *Ctx) (int, int) {
 					continue
 				}
 				n++
-				root := bigRootAll(call.Call.Args[0], 0)
-				g := globalBigOf(root, 0)
-				if g == "" {
-					if rc, ok := root.(*ssa.Call); ok {
-						if cf := rc.Call.StaticCallee(); cf != nil {
-							g = returnsGlobal[cf]
+				g := ""
+				for _, root := range bigRoots(call.Call.Args[0]) {
+					if g == "" {
+						g = globalBigOf(root, 0)
+					}
+					if g == "" {
+						if rc, ok := root.(*ssa.Call); ok {
+							if cf := rc.Call.StaticCallee(); cf != nil {
+								g = returnsGlobal[cf]
+							}
 						}
 					}
 				}
@@ -385,25 +389,33 @@ func c05SharedBigRule(c *Ctx) (int, int) {
 	return n, bad
 }
 
-// bigRootAll follows receiver-returning methods and phis (first edge that is global wins).
-func bigRootAll(v ssa.Value, depth int) ssa.Value {
-	if depth > 20 {
-		return v
-	}
-	if call, ok := v.(*ssa.Call); ok {
-		if f := call.Call.StaticCallee(); f != nil && f.Signature.Recv() != nil && strings.HasSuffix(f.Signature.Recv().Type().String(), "big.Int") && bigMutators[f.Name()] && len(call.Call.Args) > 0 {
-			return bigRootAll(call.Call.Args[0], depth+1)
+// bigRoots: every value the receiver of a big.Int operation may alias, following receiver-returning (mutating)
+// methods and all phi edges (cycle-safe).
+func bigRoots(v ssa.Value) []ssa.Value {
+	seen := map[ssa.Value]bool{}
+	var out []ssa.Value
+	var walk func(ssa.Value)
+	walk = func(x ssa.Value) {
+		if seen[x] {
+			return
 		}
-	}
-	if p, ok := v.(*ssa.Phi); ok {
-		for _, e := range p.Edges {
-			r := bigRootAll(e, depth+1)
-			if globalBigOf(r, 0) != "" {
-				return r
+		seen[x] = true
+		if call, ok := x.(*ssa.Call); ok {
+			if f := call.Call.StaticCallee(); f != nil && f.Signature.Recv() != nil && strings.HasSuffix(f.Signature.Recv().Type().String(), "big.Int") && bigMutators[f.Name()] && len(call.Call.Args) > 0 {
+				walk(call.Call.Args[0])
+				return
 			}
 		}
+		if p, ok := x.(*ssa.Phi); ok {
+			for _, e := range p.Edges {
+				walk(e)
+			}
+			return
+		}
+		out = append(out, x)
 	}
-	return v
+	walk(v)
+	return out
 }
 
 func globalBigOf(v ssa.Value, depth int) string {
